@@ -91,12 +91,25 @@ def surround(t, rng, variant):
                 "lib.yaml": consts + "message_defs:\n" + tgt + "\n"}, "r.yaml"
     if variant == "importer_of_consts":
         return {"r.yaml": "imports:\n  - k.yaml\nmessage_defs:\n" + tgt + "\n", "k.yaml": consts}, "r.yaml"
+    if variant == "fields_before_id":
+        pad = "  "
+        if t["fields"]:
+            body = f"{pad}{t['name']}:\n{pad}  fields:\n" + "\n".join(f"{pad}    {f[0]}: {f[1]}" for f in t["fields"]) + f"\n{pad}  id: {t['id']}"
+        else:
+            body = f"{pad}{t['name']}:\n{pad}  fields: null\n{pad}  id: {t['id']}"
+        return {"r.yaml": consts + "message_defs:\n" + body + "\n"}, "r.yaml"
+    if variant == "flow_style":
+        if t["fields"]:
+            body = f"  {t['name']}: {{id: {t['id']}, fields: {{" + ", ".join(f"{f[0]}: '{f[1]}'" for f in t["fields"]) + "}}"
+        else:
+            body = f"  {t['name']}: {{id: {t['id']}, fields: null}}"
+        return {"r.yaml": consts + "message_defs:\n" + body + "\n"}, "r.yaml"
     if variant == "indent4":
         return {"r.yaml": consts + "message_defs:\n" + render(t, 4) + "\n"}, "r.yaml"
     raise ValueError(variant)
 
 
-VARIANTS = ["plain", "comments", "others_before", "others_after", "sections_reordered", "imported", "subdir", "diamond", "importer_of_consts", "indent4"]
+VARIANTS = ["plain", "comments", "others_before", "others_after", "sections_reordered", "imported", "subdir", "diamond", "importer_of_consts", "indent4", "fields_before_id", "flow_style"]
 
 
 def edits(t, rng):
